@@ -73,6 +73,8 @@ fn generic_real_space(ctx: &Ctx, letters: &[f64], words: Option<(String, Vec<Vec
             let a = sparse_of(&d, (idx % 7) as usize);
             let kappa = cond_inf(&d);
             let ainv = kappa / norm_inf_mat(&d);
+            // (right-hand sides with zero entries were tried: on reducible members they give exact Lanczos breakdowns - the known-finding
+            // class - in all three Lanczos-type solvers, 18 969 failures on the unchanged tree, so they are not part of this lattice)
             let bs: Vec<Vec<f64>> = vec![vec![0.9184622128670501, 0.006907651164131723, 0.5234778673726308], matvec(&d, &[1.0, -0.5, 2.0])];
             for (ri, b) in bs.iter().enumerate() {
                 let exact = match lu_solve(&d, &[b.clone()]) {
@@ -115,6 +117,43 @@ fn generic_real_space(ctx: &Ctx, letters: &[f64], words: Option<(String, Vec<Vec
             }
         },
     );
+}
+
+/// Reducible dyadic strictly dominant systems whose right-hand side has a zero entry: the Krylov space of (A, b) is exhausted before
+/// tol = 1e-12 is reached and solve_qmr has to restart from b - A x and carry on. Three systems delivered by a sub-agent in round 5 of
+/// the seeded changes. They are listed, not enumerated: of the 18 333 systems within two entries of them over {0, +-1/4, 1/2, -3/4},
+/// 5 993 fail on the unchanged tree (exact and near-exact Lanczos breakdowns of the look-ahead-free QMR - the known-finding class),
+/// so the neighbourhood cannot be demanded and the property cannot be decided there by enumeration.
+fn qmr_restart_cases(ctx: &Ctx) {
+    let bases: Vec<(D, Vec<f64>)> = vec![
+        (vec![vec![1.0, -0.25, 0.0, 0.0, -0.5], vec![-0.5, 1.75, 0.0, 0.0, 0.75], vec![1.5, 0.75, 5.75, -1.5, 1.0], vec![0.0, -0.75, 0.0, 1.5, 0.0], vec![2.0, -0.75, 0.0, 0.0, 4.5]], vec![0.75, 1.75, 0.0, -1.25, -1.0]),
+        (vec![vec![0.75, 0.0, -0.25, 0.0, 0.0], vec![0.0, 1.0, 0.0, 0.0, 0.75], vec![-1.5, 0.0, 4.5, 0.0, -1.75], vec![-1.0, -1.0, 1.75, 6.25, 1.25], vec![0.0, -0.25, 0.0, 0.0, 2.25]], vec![-1.25, 1.25, -1.25, 0.0, 1.75]),
+        (vec![vec![1.0, 0.0, 0.0, 0.0], vec![-1.75, 4.0, 0.0, 1.5], vec![1.0, 0.0, 2.5, 1.25], vec![0.25, 0.0, 0.0, 0.75]], vec![-1.25, 0.0, 0.75, -0.25]),
+    ];
+    let mut cases: Vec<(String, Box<dyn Fn() -> Result<(), String> + Sync + Send>)> = vec![];
+    for (bi, (d, b)) in bases.into_iter().enumerate() {
+        let n = d.len();
+        cases.push((
+            format!("qmr-restart base #{} (order {})", bi, n),
+            Box::new(move || {
+                let exact = lu_solve(&d, &[b.clone()]).ok_or("singular")?[0].clone();
+                let a = sparse_of(&d, 0);
+                let mut x = Vector::create(vec![0.0; n]);
+                // these systems stagnate at a residual of 0.2..0.3 until the step stops changing x (55..78 iterations), restart and
+                // then converge at once: beyond the 6n + 30 demanded elsewhere, so the bound here is 20 n
+                let cap = 20 * n;
+                match run(Solver::Qmr, &a, &Vector::create(b.clone()), &mut x, cap, 1e-12) {
+                    Ok(k) => {
+                        let err = (0..n).map(|i| (x[i] - exact[i]).abs()).fold(0.0, f64::max);
+                        ensure!(err <= 1e-9 * cond_inf(&d) * norm_inf(&exact), "Ok({}) but ||x - x*||_inf = {:e}", k, err);
+                        Ok(())
+                    }
+                    Err(e) => Err(format!("no success within {} iterations (Err({:e})); x = {:?}", cap, e, x.vec)),
+                }
+            }),
+        ));
+    }
+    ctx.listed_cases("listed inputs: reducible dyadic systems on which QMR restarts after exhausting the Krylov space (sub-agent, round 5)", cases);
 }
 
 fn main() {
@@ -417,6 +456,7 @@ fn main() {
             generic_real_space(&ctx, &g6, None);
         }
     }
+    qmr_restart_cases(&ctx);
     // Right-hand sides beyond 1e155 in norm: r.r overflows (below 1e-155: underflows) in CG, BiCG and BiCGSTAB, which then
     // fail on a perfectly conditioned system; QMR normalises its vectors and survives. The property says "right-hand
     // sides of any scale": genuine, not repaired (it needs scaled inner products throughout three solvers), listed.
